@@ -48,6 +48,20 @@ def simple_plan(engine, dev_scale=0.1):
 PLANS["C17"] = simple_plan("formats")
 PLANS["C18"] = simple_plan("formats")
 
+def scen_plan(dev_scale=0.1, pool_env=None):
+    env = {"RAYON_NUM_THREADS": "4"}
+    q = [vh("scen-release", "scen", "release", 1.0, timeout=900, env=env), vh("scen-dev", "scen", "dev", dev_scale, timeout=900, env=env)]
+    t = [vh("scen-release", "scen", "release", 1.0, timeout=3400, env=env), vh("scen-relchk", "scen", "relchk", 0.2, timeout=3400, env=env)]
+    return {"quick": q, "thorough": t}
+
+
+for _p in ("C01", "C03", "C04", "C16"):
+    PLANS[_p] = scen_plan()
+PLANS["C02"] = scen_plan()
+for _t in ("quick", "thorough"):
+    for _s in PLANS["C02"][_t]:
+        _s["shards"] = 4          # each worker drives pools of up to 16 threads itself
+
 # D11 witness runs in its own subprocess (C05 only)
 for tier in ("quick", "thorough"):
     PLANS["C05"][tier] = PLANS["C05"][tier] + [{"name": "d11-witness", "kind": "d11", "profile": "release"}]
@@ -97,6 +111,14 @@ FLOORS = {
             ("ok outcomes seen", counter_floor("outcome.ok", 50))],
     "C12": [("access and crypto ops executed", ops_floor(("Access(", "Crypto(")))],
     "C14": [("mapped runs", counter_floor("mapped.runs", 1000)), ("byte strings mapped", counter_floor("mapped.ok", 1000))],
+    "C01": [("node inputs observed", counter_floor("node_inputs_compared", 10000)), ("accepted sets", counter_floor("outcome.ok", 500)),
+            ("rejected graphs", counter_floor("outcome.fail.invalid_graph", 50)), ("deferred", counter_floor("scenarios_with_deferred_nodes", 200)),
+            ("graph shapes", lambda m, tier: (len(m["sets"].get("graph_shapes", [])) >= 30, "fewer than 30 distinct graph shapes"))],
+    "C02": [("distinct interleavings", counter_floor("distinct_task_orders_this_shard", 10)), ("pool matrix", counter_floor("scenarios_under_pool_matrix", 100))],
+    "C03": [("observed values", counter_floor("observed_value_beacons", 5000)), ("deferred", counter_floor("scenarios_with_deferred_nodes", 500)),
+            ("accepted sets", counter_floor("outcome.ok", 500))],
+    "C04": [("permutations", counter_floor("permutations", 1000))],
+    "C16": [("returned sets revalidated", counter_floor("returned_sets_revalidated", 500)), ("mutation failures", counter_floor("outcome.fail.mutations", 20))],
     "C17": [("permutations", counter_floor("permutations", 1000)), ("perturbations", counter_floor("perturbations", 1000))],
     "C18": [("serde round trips", counter_floor("serde_roundtrips", 10000)), ("legacy names", counter_floor("legacy_names_accepted", 100)),
             ("node_edges", counter_floor("node_edges_checked", 1000))],
@@ -118,6 +140,13 @@ CODEC_RULE = ("cases = byte strings: all 256 opcode bytes x immediate lengths, a
               "opcode byte at every position (these three sub-spaces exhaustively), random programs over all ops with hostile immediates, all their "
               "truncations, single bit flips and raw random bytes. Non-trivial = yields at least one op before the end/error (>= 2 ops when valid); "
               "distinct = distinct byte string (FNV hash), counted across shards.")
+SCEN_RULE = ("a scenario = 1-3 predicates (random DAG: chains, fans, random, multi-edges; numbered topologically, reversed or randomly; leaves as markers or empty "
+             "slices; some raw/malformed encodings), node programs from templates that work on any input (producers, pre/post readers with observed-value beacons, "
+             "constraint / data / sloppy leaves, risky ops), 1-5 solutions with declared mutations, a pre-state. Each is evaluated by the sequential reference and by "
+             "the real two-pass checker; verdict, failing indices, gas, computed mutations, every node's observed input (VM hook) and the beacon order are compared. "
+             "Non-trivial = specified and some predicate has >= 2 nodes and >= 1 edge; distinct = hash of the whole scenario.")
+for _p in ("C01", "C02", "C03", "C04", "C16"):
+    RULES[_p] = SCEN_RULE
 RULES["C17"] = ("one round = a random predicate, program, contract, solution and solution set (every 50th round at the limits: 1000 nodes/edges, 100 predicates, "
                "100 solutions), each with a random permutation and a single-field / near-collision perturbation; all pre-hash byte strings of a run are bucketed "
                "to look for two distinct values hashing the same bytes. Non-trivial = predicate with >= 2 nodes+edges, contract with >= 2 predicates, every solution; "
